@@ -375,7 +375,12 @@ func (g *gen) settingsOp(side string, me *rcvLedger) Op {
 			return uint32(r.Range(0, 65536))
 		}
 	}
-	switch x := r.Intn(10); {
+	switch x := r.Intn(12); {
+	case x >= 10:
+		// one frame naming an identifier more than once: the values are processed in the order they
+		// appear (RFC 7540 6.5.3), so the LAST one is in force - at this endpoint, at the relay that
+		// read the frame, and at the other endpoint that gets it forwarded
+		return Op{Side: side, Kind: "set", Settings: g.repeatedSettings(side, me, pickWin)}
 	case x < 6:
 		add(4, pickWin())
 	case x < 8:
@@ -396,6 +401,111 @@ func (g *gen) settingsOp(side string, me *rcvLedger) Op {
 		}
 	}
 	return Op{Side: side, Kind: "set", Settings: kvs}
+}
+
+// dataOutstanding: some DATA octet written towards `side` has not reached it yet (the relay holds it).
+func (g *gen) dataOutstanding(side string) bool {
+	d := g.run.dirOf(other(side))
+	for sid, sent := range d.sent {
+		if len(d.got[sid]) < len(sent) {
+			return true
+		}
+	}
+	return false
+}
+
+// repeatedSettings builds a SETTINGS frame in which INITIAL_WINDOW_SIZE, MAX_FRAME_SIZE and/or
+// HEADER_TABLE_SIZE occur two or three times with different values - the way a stack that appends
+// overrides to a list of defaults writes it - between other and unknown identifiers.
+//
+// Two restrictions keep the schedule inside what the unchanged relay is known to do right:
+//   - the relay scans its queues after EACH value of INITIAL_WINDOW_SIZE (updateInitialWindowSize),
+//     so an earlier, larger value releases DATA that the value in force no longer covers; a chain
+//     whose last value is not its largest is therefore only written while no DATA is outstanding
+//     towards this endpoint (reported as a proposal, not hidden: see docs/asbuilt);
+//   - x/net's hpack.Decoder accepts one dynamic-table-size update at the start of a block unless its
+//     table is empty, and hpack.Encoder announces "minimum, then final" after several changes: the
+//     last HEADER_TABLE_SIZE of a chain is its smallest (and the rule of rcvLedger.tblPending holds).
+func (g *gen) repeatedSettings(side string, me *rcvLedger, pickWin func() uint32) [][2]uint32 {
+	r := g.r
+	type chain struct {
+		id   uint32
+		vals []uint32
+	}
+	var chains []chain
+	which := r.Intn(10)
+	if which < 6 || which == 9 {
+		n := r.Range(2, 3)
+		last := pickWin()
+		vals := make([]uint32, n)
+		vals[n-1] = last
+		down := !g.dataOutstanding(side) && r.Chance(60)
+		for i := 0; i < n-1; i++ {
+			switch {
+			case down && r.Chance(50):
+				vals[i] = 65535 // the default, written out before the override
+			case down:
+				vals[i] = uint32(r.Range(0, 65536))
+			default:
+				vals[i] = uint32(r.Range(0, int(last)))
+			}
+		}
+		if vals[0] == last && n == 2 {
+			vals[0] = last / 2
+		}
+		chains = append(chains, chain{4, vals})
+	}
+	if which >= 6 && which <= 8 || which == 9 && r.Chance(50) {
+		n := r.Range(2, 3)
+		vals := make([]uint32, n)
+		for i := range vals {
+			vals[i] = uint32(core.Pick(r, []int{16384, 16385, 20000, 32768, 65535, 65536, r.Range(16384, 65536)}))
+		}
+		if vals[n-1] == vals[0] {
+			vals[0] = uint32(core.Pick(r, []int{16384, 65536}))
+		}
+		chains = append(chains, chain{5, vals})
+	}
+	if !me.tbl0 && !me.tblPending && r.Chance(25) {
+		n := r.Range(2, 3)
+		vals := make([]uint32, n)
+		lo := uint32(core.Pick(r, []int{0, 100, 1000, 4096}))
+		vals[n-1] = lo
+		for i := 0; i < n-1; i++ {
+			vals[i] = lo + uint32(core.Pick(r, []int{0, 1, 1000, 4096, 60000}))
+		}
+		chains = append(chains, chain{1, vals})
+	}
+	// interleave the chains (each keeps its own order) with other identifiers
+	var kvs [][2]uint32
+	filler := func() {
+		switch r.Intn(4) {
+		case 0:
+			kvs = append(kvs, [2]uint32{3, uint32(r.Range(1, 1000))}) // MAX_CONCURRENT_STREAMS
+		case 1:
+			kvs = append(kvs, [2]uint32{6, uint32(r.Range(4096, 1<<20))}) // MAX_HEADER_LIST_SIZE
+		case 2:
+			kvs = append(kvs, [2]uint32{uint32(core.Pick(r, []int{0x99, 0xf0f0, 0x0b})), uint32(r.Intn(100))}) // unknown
+		}
+	}
+	for {
+		var live []int
+		for i := range chains {
+			if len(chains[i].vals) > 0 {
+				live = append(live, i)
+			}
+		}
+		if len(live) == 0 {
+			break
+		}
+		i := core.Pick(r, live)
+		kvs = append(kvs, [2]uint32{chains[i].id, chains[i].vals[0]})
+		chains[i].vals = chains[i].vals[1:]
+		if r.Chance(50) {
+			filler()
+		}
+	}
+	return kvs
 }
 
 func (g *gen) miscOp(side string) Op {
@@ -582,6 +692,9 @@ func generate(seed uint64, p Params, run *Runner) {
 	g := newGen(seed, p, run)
 	do := func(op Op) bool {
 		ok := run.Do(op)
+		if op.Kind == "sleep" {
+			return ok
+		}
 		real := run.res.Ops[len(run.res.Ops)-1]
 		var st *Step
 		if ok {
@@ -618,6 +731,20 @@ func generate(seed uint64, p Params, run *Runner) {
 		}
 	}
 	for i := 0; i < p.NOps; i++ {
+		if p.E2E != nil && i == p.NOps/2 {
+			// the connection outlives the proxy's HTTP/1 timeouts: silent, or with a frame every few
+			// tens of milliseconds (each followed by its barrier pair: both relay directions stay in use)
+			if p.E2E.Mode == "busy" {
+				for t0 := time.Now(); time.Since(t0) < time.Duration(p.E2E.HoldMs)*time.Millisecond; {
+					op, _ := g.next(i)
+					if !do(op) || !do(Op{Kind: "sleep", Ms: r.Range(20, 70)}) {
+						return
+					}
+				}
+			} else if !do(Op{Kind: "sleep", Ms: p.E2E.HoldMs}) {
+				return
+			}
+		}
 		op, ok := g.next(i)
 		if !ok {
 			break
